@@ -151,6 +151,10 @@ func (f *Forest) ProjectItem(v any) Item {
 	if isChoice(d) {
 		it["wrapped"] = true
 	}
+	it["xurl"] = ""
+	if e, ok := m.(*dtpb.Extension); ok {
+		it["xurl"] = Ascii(e.GetUrl().GetValue())
+	}
 	if r, pi, ok := f.lookup(m); ok {
 		it["r"] = r
 		it["addr"] = append([]int{}, pi.Node.Addr...)
